@@ -4,6 +4,7 @@ import FlodymProofs.Props.C20
 #print axioms Flodym.C20.links_come_from_shown_flows
 #print axioms Flodym.C20.unsplit_flow_link
 #print axioms Flodym.C20.split_flow_links
+#print axioms Flodym.C20.source_default_exclusion
 #print axioms Flodym.C20.one_line
 #print axioms Flodym.C20.slices_are_reads
 #print axioms Flodym.C20.no_split_single
